@@ -327,7 +327,8 @@ ASSUME = ['in-place mutation of a field list bypasses __setattr__ and is outside
 
 
 def main(argv):
-    return run_check('C10', [C10Stream()], argv, trusted_base=TRUSTED, assumptions=ASSUME)
+    return run_check('C10', [C10Stream()], argv, trusted_base=TRUSTED, assumptions=ASSUME,
+                     translated=('policy',))
 
 
 if __name__ == '__main__':
